@@ -1,10 +1,11 @@
 (* Run/C13: arbitrary wire-valid queries.  model_ok = the serve model over the dumps computes
-   what each server did (panic / no reply / the reply, section by section);
+   what each server did (panic / no reply / the reply, section by section), and the v2 dump
+   satisfies the decidable guard of C13_no_panic_v2 (Spec/KeysV2.wf_store_v2);
    spec_ok = no panic, and whatever was written is packable, has the query's ID and question
    and the QR bit, BADVERS (16) exactly for an EDNS version other than 0, and no option other
    than the client-subnet echo (unknown options are ignored); over UDP the packed reply is no longer
    than max(512, advertised size), no record is added, and TC is set whenever records were dropped. *)
-From DnsV Require Export Base.Bytes Model.Store Model.LookupV1 Model.LookupV2 Model.Serve Spec.Answer Spec.Rows Run.Core.
+From DnsV Require Export Base.Bytes Model.Store Model.LookupV1 Model.LookupV2 Model.Serve Spec.Answer Spec.Rows Spec.KeysV2 Run.Core.
 Open Scope N_scope.
 
 (* what one backend wrote for a query received over UDP: the limit is max(512, advertised EDNS
@@ -13,7 +14,10 @@ Open Scope N_scope.
 Record udpobs := mkU { u_limit : N; u_len : N; u_written : bool; u_tc : bool; u_n : N; u_ntcp : N;
                        u_panic : bool; u_packerr : bool }.
 Record case := mkC { c_file : fcase; c_udp : list (list udpobs) }.     (* per query, per backend *)
-Definition model_ok (c : case) : bool := serve_model_ok (c_file c).
+(* the dump of the v2 database the real compiler wrote satisfies the guard of C13_no_panic_v2 *)
+Definition guard_ok (c : case) : bool :=
+  if f_compiled (c_file c) then wf_store_v2 (f_v2 (c_file c)) else true.
+Definition model_ok (c : case) : bool := serve_model_ok (c_file c) && guard_ok c.
 
 (* within the size the client advertised, or else truncated with TC set *)
 Definition udp_ok (u : udpobs) : bool :=
